@@ -205,6 +205,7 @@ def run(repo, rep, tier):
     _quote_paths(repo, rep, tier)
     _entities(repo, rep)
     _precheck(repo, rep)
+    L.state_rule(repo, rep)
 
 
 # ---------------------------------------------------------------------------
